@@ -212,7 +212,7 @@ fn check_exchange(d: &mut crate::driver::Driver, r: &mut Report, seg: bool, a: &
 fn gen_recomb(g: &mut SplitMix) -> (Op, bool, Vec<u32>, Vec<u32>) {
     let op = *g.pick(&[Op::TpVec, Op::TpG, Op::UniVec, Op::UniG]);
     let tuple = g.chance(1, 2);
-    let l1 = match g.below(12) { 0 => 0, 1 => 1, 2 => 2, 3 => 13 + g.below(52), _ => g.below(13) } as usize;
+    let l1 = match g.below(14) { 0 => 0, 1 => 1, 2 => 2, 3 => 13 + g.below(52), 4 => *g.pick(&[63u64, 64, 65, 127, 128, 129, 200]), _ => g.below(13) } as usize;
     let l2 = if g.chance(4, 5) { l1 } else { match g.below(4) { 0 => 0, 1 => l1 + 1, 2 => l1.saturating_sub(1), _ => g.below(14) as usize } };
     let bits = matches!(op, Op::TpG | Op::UniG);
     let (p1, p2): (Vec<u32>, Vec<u32>) = if bits {
@@ -297,6 +297,56 @@ fn coverage_oracle(r: &mut Report, seed: u64, k: u64, mutant: Mutant) {
 
 /// `UEC_LIN_MUTANT=<name>` (testing the check itself, never set by `./check`): replace the real operators by a
 /// harness-side mutant so that the whole pipeline can be seen to fail; the report carries a SELFTEST note.
+/// (d) uniform crossover decides every position independently: on long genomes (beyond one machine word of coins)
+/// the decisions at positions `i` and `i + lag` must agree half of the time.  For independent fair coins the
+/// agreement indicators along a lag form a forest of XORs and are mutually independent, so Hoeffding's bound applies
+/// to their sum (false-alarm budget 1e-12 over all tests).  Per-position frequencies are checked as well.
+fn independence_oracle(r: &mut Report, seed: u64, trials: u64, mutant: Mutant) {
+    let len = 200usize;
+    let lags = [1usize, 2, 31, 32, 33, 63, 64, 65, 96, 127, 128, 129];
+    let tests = (2 * 2 * (lags.len() + 1)) as f64;
+    for op in [Op::UniVec, Op::UniG] {
+        for tuple in [false, true] {
+            let bits = op == Op::UniG;
+            let p1: Vec<u32> = if bits { vec![0; len] } else { (0..len as u32).map(|i| 1000 + i).collect() };
+            let p2: Vec<u32> = if bits { vec![1; len] } else { (0..len as u32).map(|i| 2000 + i).collect() };
+            let mut agree = vec![0u64; lags.len()];
+            let mut from_second = vec![0u64; len];
+            let mut ok_runs = 0u64;
+            for t in 0..trials {
+                let mut rng = SplitMix::derive(seed ^ 0x1DE9, t * 4 + tuple as u64 * 2 + bits as u64);
+                let real = run_recomb(op, tuple, &p1, &p2, &mut rng, mutant);
+                let Some(child) = real.strip_prefix("ok ") else { continue };
+                let c: Vec<bool> = nums(child).iter().zip(&p2).map(|(x, y)| x.parse::<u32>().ok() == Some(*y)).collect();
+                if c.len() != len { continue; }
+                ok_runs += 1;
+                for (j, b) in c.iter().enumerate() { if *b { from_second[j] += 1; } }
+                for (li, lag) in lags.iter().enumerate() {
+                    for i in 0..len - lag { if c[i] == c[i + lag] { agree[li] += 1; } }
+                }
+            }
+            r.case(&format!("independence {} tuple={tuple}", op.tok()), true);
+            if ok_runs < trials { r.violate(json!({"case": format!("independence {} tuple={tuple}", op.tok()), "what": "uniform crossover of equal-length parents of length 200 did not return a child of that length", "real": ok_runs})); continue; }
+            for (li, lag) in lags.iter().enumerate() {
+                let n = (trials * (len - lag) as u64) as f64;
+                let tol = (n * (2.0 * tests / 1e-12f64).ln() / 2.0).sqrt();
+                let dev = (agree[li] as f64 - n / 2.0).abs();
+                if dev > tol {
+                    r.violate(json!({"case": format!("independence {} tuple={tuple} length {len}: positions i and i+{lag} over {trials} seeded recombinations", op.tok()),
+                        "real": format!("{} agreements of {}", agree[li], n), "what": format!("uniform crossover does not decide the positions independently: decisions {lag} apart agree {:.1}% of the time (expected 50%, tolerance {:.0} of {} at a 1e-12 false-alarm budget)", 100.0 * agree[li] as f64 / n, tol, n)}));
+                }
+            }
+            let tol1 = (trials as f64 * (2.0 * tests * len as f64 / 1e-12f64).ln() / 2.0).sqrt();
+            if let Some((j, c)) = from_second.iter().enumerate().find(|(_, c)| (**c as f64 - trials as f64 / 2.0).abs() > tol1) {
+                r.violate(json!({"case": format!("independence {} tuple={tuple} length {len}: position {j}", op.tok()), "real": format!("{c} of {trials} from the second parent"),
+                    "what": "a position of a long genome does not take its gene from either parent with probability 1/2"}));
+            }
+            r.hit_n("independence trials", trials);
+        }
+    }
+    r.notes.push(format!("independence oracle: uniform crossover on genomes of length {len}, {trials} recombinations per flavour, agreement of decisions at lags {lags:?} and per-position frequencies (Hoeffding, 1e-12)"));
+}
+
 fn env_mutant() -> Mutant {
     match std::env::var("UEC_LIN_MUTANT").as_deref() {
         Ok("CutExclusive") => Mutant::CutExclusive, Ok("NoSwapCuts") => Mutant::NoSwapCuts, Ok("UniformInverted") => Mutant::UniformInverted,
@@ -332,6 +382,7 @@ pub fn run_with(cfg: &Cfg, mutant: Mutant) -> Report {
         }
     });
     coverage_oracle(&mut rep, seed, if cfg.thorough { 4000 } else { 1200 }, mutant);
+    independence_oracle(&mut rep, seed, if cfg.thorough { 6000 } else { 1500 }, mutant);
     rep.exhaustive = false;
     rep.notes.push(format!("exchange scope exhaustive: lengths 0..={l_max} x 0..={l_max}, {patterns} bit patterns, every index in [0,max+2], every (start,end) in [0,max+2]^2; {n_rand} seeded recombinations; coverage oracle for n<=5"));
     if mutant != Mutant::None { rep.notes.push(format!("SELFTEST: the real operators were replaced by the mutant {mutant:?}")); }
